@@ -279,6 +279,20 @@ func runPlan(out *c.Out, plan history.Plan) {
 	nfollow := 40
 	for k := 0; k < nfollow; k++ {
 		spec := g.Next(A.Ctx(hdr))
+		// Skip messages that fail ValidateBasic: baseapp charges such a tx the gas accumulated on the block's
+		// context so far, which on the first block after InitChain includes all of InitGenesis (≈ 4·10^8) and
+		// exhausts the block gas meter of the imported app only — an SDK artefact of delivering a tx that
+		// CheckTx would never admit, unrelated to the exported state.
+		basicOK := true
+		for _, m := range spec.Msgs {
+			if m.ValidateBasic() != nil {
+				basicOK = false
+			}
+		}
+		if !basicOK {
+			out.Note("followup-skipped-basic-invalid")
+			continue
+		}
 		bz, err := g.SignFor(A.Ctx(hdr), spec)
 		if err != nil {
 			continue
@@ -306,6 +320,9 @@ func runPlan(out *c.Out, plan history.Plan) {
 		same := ca.Code == cb.Code && ca.Codespace == cb.Codespace
 		sig := fmt.Sprintf("%s|%s/%d|same=%v", kinds[k], ca.Codespace, ca.Code, same)
 		out.Case(sig, "c14.tx", plan.Name, fmt.Sprint(k), kinds[k], fmt.Sprintf("%s/%d", ca.Codespace, ca.Code), fmt.Sprintf("%s/%d", cb.Codespace, cb.Code))
+		if os.Getenv("VERIF_DEBUG") != "" {
+			fmt.Printf("FOLLOWUP %s tx=%d kind=%s codeA=%d gasA=%d codeB=%d gasB=%d\n", plan.Name, k, kinds[k], ca.Code, ca.GasUsed, cb.Code, cb.GasUsed)
+		}
 		if !same {
 			out.Violation(fmt.Sprintf("C14 follow-up tx result differs kind=%s original=%s/%d imported=%s/%d plan=%s seed=%d log-original=%q log-imported=%q",
 				kinds[k], ca.Codespace, ca.Code, cb.Codespace, cb.Code, plan.Name, plan.Seed, short(ca.Log, 200), short(cb.Log, 200)))
